@@ -7,6 +7,7 @@ import (
 	"encoding/json"
 	"fmt"
 	"hash/fnv"
+	"math"
 	"os"
 	"path/filepath"
 	"runtime"
@@ -100,9 +101,57 @@ type Case struct {
 	B     *G                `json:"b,omitempty"`
 	Cfg   string            `json:"cfg,omitempty"`  // index / option configuration
 	Doc   string            `json:"doc,omitempty"`  // document text
-	Nums  []float64         `json:"nums,omitempty"` // numeric arguments
+	Nums  Floats            `json:"nums,omitempty"` // numeric arguments
 	Ops   []string          `json:"ops,omitempty"`  // operation sequence / schedule
 	X     map[string]string `json:"x,omitempty"`    // further named arguments
+}
+
+// Floats is written to replay files with every bit kept: finite values as
+// JSON numbers (shortest form that reads back to the same float), NaNs (with
+// their payload) and infinities as "bits:<hex>" strings.
+type Floats []float64
+
+func (f Floats) MarshalJSON() ([]byte, error) {
+	var sb strings.Builder
+	sb.WriteByte('[')
+	for i, v := range f {
+		if i > 0 {
+			sb.WriteByte(',')
+		}
+		if math.IsNaN(v) || math.IsInf(v, 0) || (v == 0 && math.Signbit(v)) {
+			sb.WriteString(`"bits:` + strconv.FormatUint(math.Float64bits(v), 16) + `"`)
+		} else {
+			sb.WriteString(strconv.FormatFloat(v, 'g', -1, 64))
+		}
+	}
+	sb.WriteByte(']')
+	return []byte(sb.String()), nil
+}
+
+func (f *Floats) UnmarshalJSON(b []byte) error {
+	var raw []json.RawMessage
+	if err := json.Unmarshal(b, &raw); err != nil {
+		return err
+	}
+	out := make(Floats, len(raw))
+	for i, r := range raw {
+		var s string
+		if json.Unmarshal(r, &s) == nil {
+			u, err := strconv.ParseUint(strings.TrimPrefix(s, "bits:"), 16, 64)
+			if err != nil {
+				return err
+			}
+			out[i] = math.Float64frombits(u)
+			continue
+		}
+		v, err := strconv.ParseFloat(string(r), 64)
+		if err != nil {
+			return err
+		}
+		out[i] = v
+	}
+	*f = out
+	return nil
 }
 
 func (c *Case) Key() string {
